@@ -350,6 +350,11 @@ class Shim:
         for n in Shim.MUT_NAMES:
             if n != 'write' and ('os.' + n) in O:
                 setattr(os, n, mut(n))
+        # the capability sets the library consults (shutil.copystat, rmtree) must know the wrappers
+        for capset in (os.supports_follow_symlinks, os.supports_dir_fd, os.supports_fd, os.supports_effective_ids):
+            for key, orig in list(O.items()):
+                if key.startswith('os.') and orig in capset:
+                    capset.add(getattr(os, key[3:]))
 
         def move(src, dst, *a, **kw):
             if S.from_trashcli():
